@@ -426,4 +426,198 @@ def expected (pf : PatchFn) (garbled : Bool) (ds : List Doc) (c : Cluster) :
 
 end Spec
 
+/-! ## histories: other writers and the optimistic lock
+
+`executeCreateOperation` (the `updateIfExists` branch) and `executeFilterOperation` write with
+Get … Update under `retry.RetryOnConflict(retry.DefaultBackoff, …)`: when somebody else changed the
+object between the Get and the Update the API server answers 409 Conflict and the whole
+Get–modify–Update cycle is run again (at most `retrySteps` attempts). The history of the other
+clients enters as `Writers`. -/
+
+/-- Other clients of the API server. An entry `(k, b)` is a change `b` somebody else makes to object
+`k`; it lands right before this client's next `Update` of `k`, whose resourceVersion is then stale:
+that Update is answered 409 Conflict and changes nothing. Entries of one key land in list order. -/
+abbrev Writers := List (Key × Body)
+
+def popWriter : Writers → Key → Option (Body × Writers)
+  | [], _ => none
+  | (k', b) :: t, k =>
+    if k' = k then some (b, t)
+    else match popWriter t k with
+      | none => none
+      | some (b', t') => some (b', (k', b) :: t')
+
+/-- The other writer's change as it lands on the stored object (a change that does not apply leaves
+the object as it is). -/
+def landed (b : Body) (o : Obj) : Obj := (applyBody b o).getD o
+
+inductive UpdRes
+  | ok (c : Cluster)
+  | conflict (c : Cluster) (ws : Writers)   -- 409: the other writer's change is in, ours is not
+  | notFound
+  deriving DecidableEq, Repr
+
+/-- `Update` with the optimistic lock, in the presence of other writers. -/
+def apiUpdateH (c : Cluster) (ws : Writers) (k : Key) (o : Obj) : UpdRes :=
+  match aget c k with
+  | none => .notFound
+  | some cur =>
+    match popWriter ws k with
+    | some (b, ws') => .conflict (aset c k (landed b cur)) ws'
+    | none => .ok (aset c k o)
+
+/-- `retry.DefaultBackoff.Steps` (client-go: `{Steps: 4, Duration: 10ms, Factor: 5.0, Jitter: 0.1}`):
+the closure is run at most this many times; after the last Conflict the Conflict error is returned. -/
+def retrySteps : Nat := 4
+
+/-- The closure handed to `RetryOnConflict` by `executeCreateOperation` (Get, copy the
+resourceVersion into the hook's object, Update), with the retry loop around it (`fuel` attempts left). -/
+def updateAttempts (k : Key) (o : Obj) : Nat → St → Writers → St × Writers × Res
+  | 0, st, ws => (st, ws, .err)
+  | fuel + 1, st, ws =>
+    let st2 := st.call .get k 0
+    match apiGet st2.cluster k with
+    | .error _ => (st2, ws, .err)
+    | .ok _ =>
+      let st3 := st2.call .update k 0
+      match apiUpdateH st3.cluster ws k o with
+      | .ok c' => ({ st3 with cluster := c' }, ws, .ok)
+      | .conflict c' ws' => updateAttempts k o fuel { st3 with cluster := c' } ws'
+      | .notFound => (st3, ws, .err)
+
+/-- `executeCreateOperation` with other writers around. -/
+def execCreateH (ign upd : Bool) (src : ObjSrc) (st : St) (ws : Writers) : St × Writers × Res :=
+  match src with
+  | .bad => (st, ws, .err)
+  | .good k gvr o rep =>
+    if !gvr then (st, ws, .err)
+    else if rep = .int && o.any (fun p => p.2.isInt) then (st, ws, .panic)
+    else
+      let st1 := st.call .create k 0
+      match apiCreate st.cluster k o with
+      | .ok c' => ({ st1 with cluster := c' }, ws, .ok)
+      | .error e =>
+        let objectExists := e == .alreadyExists
+        if objectExists && ign then (st1, ws, .ok)
+        else if objectExists && upd then updateAttempts k o retrySteps st1 ws
+        else (st1, ws, .err)
+
+/-- The closure handed to `RetryOnConflict` by `executeFilterOperation` (Get, filter THE OBJECT JUST
+READ, skip the Update when unchanged, Update), with the retry loop around it. -/
+def filterAttempts (pf : PatchFn) (k : Key) (sub : Sub) (im : Bool) (body : Option Body) :
+    Nat → St → Writers → St × Writers × Res
+  | 0, st, ws => (st, ws, .err)
+  | fuel + 1, st, ws =>
+    let st1 := st.call .get k 0
+    match apiGet st.cluster k with
+    | .error e => if im && e == .notFound then (st1, ws, .ok) else (st1, ws, .err)
+    | .ok o =>
+      match body.bind (fun b => pf .jq b o) with
+      | none => (st1, ws, .err)
+      | some o' =>
+        if objEqb o o' then (st1, ws, .ok)
+        else
+          let st2 := st1.call .update k sub
+          match apiUpdateH st2.cluster ws k o' with
+          | .ok c' => ({ st2 with cluster := c' }, ws, .ok)
+          | .conflict c' ws' => filterAttempts pf k sub im body fuel { st2 with cluster := c' } ws'
+          | .notFound => (st2, ws, .err)
+
+def execFilterH (pf : PatchFn) (k : Key) (gvr : Bool) (sub : Sub) (im : Bool)
+    (body : Option Body) (st : St) (ws : Writers) : St × Writers × Res :=
+  if !gvr then (st, ws, .err) else filterAttempts pf k sub im body retrySteps st ws
+
+/-- `ExecuteOperation` with other writers around: only the two Get … Update executors meet them (the
+`Patch` and `Delete` API calls carry no resourceVersion). -/
+def execOneH (pf : PatchFn) (op : Op) (st : St) (ws : Writers) : St × Writers × Res :=
+  match op with
+  | .create ign upd src => execCreateH ign upd src st ws
+  | .delete p k gvr sub => let r := execDelete p k gvr sub st; (r.1, ws, r.2)
+  | .patch kind k gvr sub im _ body =>
+    if kind = .jq then execFilterH pf k gvr sub im body st ws
+    else let r := execPatch pf kind k gvr sub im body st; (r.1, ws, r.2)
+
+structure ExecResultH where
+  st : St
+  ws : Writers
+  nerr : Nat
+  panicked : Bool
+  deriving DecidableEq, Repr
+
+def executeH (pf : PatchFn) : List Op → St → Writers → Nat → ExecResultH
+  | [], st, ws, n => ⟨st, ws, n, false⟩
+  | op :: rest, st, ws, n =>
+    match execOneH pf op st ws with
+    | (st', ws', .ok) => executeH pf rest st' ws' n
+    | (st', ws', .err) => executeH pf rest st' ws' (n + 1)
+    | (st', ws', .panic) => ⟨st', ws', n, true⟩
+
+def handleH (pf : PatchFn) (normalise : Bool) (f : Form) (s : Stream) (st : St) (ws : Writers) :
+    HandleResult :=
+  match parse normalise f s with
+  | (_, true) => ⟨st, true, false, 0, false⟩
+  | (ops, false) =>
+    let r := executeH pf ops st ws 0
+    ⟨r.st, r.nerr != 0 || r.panicked, true, r.nerr, r.panicked⟩
+
+namespace Spec
+
+/-- Does the documented run of `op` on `c` end with an `Update` under the optimistic lock, and of
+which object. -/
+def locked (pf : PatchFn) (op : Op) (c : Cluster) : Option Key :=
+  ((calls pf op c).find? (fun a => a.verb == .update)).map (·.key)
+
+/-- The Get … Update cycle of the documented calls: what is run again after a Conflict. -/
+def cycle (pf : PatchFn) (op : Op) (c : Cluster) : List Action :=
+  (calls pf op c).dropWhile (fun a => a.verb != .get)
+
+structure OutH where
+  cluster : Cluster
+  ws : Writers
+  failed : Bool
+  calls : List Action
+  deriving DecidableEq, Repr
+
+/-- The documented effect of one operation in a history with other writers: the operation is
+atomic with respect to them — whenever somebody else gets in before the Update, the operation starts
+over ON WHAT IS THERE NOW (so the other writer's change survives and the documented effect is that of
+the operation on the changed object); after `fuel` Conflicts in a row it fails and leaves the object
+to the others. `first` = the first attempt (all documented calls; later attempts repeat the cycle). -/
+def effectH (pf : PatchFn) (op : Op) : Nat → Bool → Cluster → Writers → OutH
+  | 0, _, c, ws => ⟨c, ws, true, []⟩
+  | fuel + 1, first, c, ws =>
+    let e := effect pf op c
+    let cs := if first then calls pf op c else cycle pf op c
+    match locked pf op c with
+    | none => ⟨e.1, ws, e.2, cs⟩
+    | some k =>
+      match aget c k, popWriter ws k with
+      | some cur, some (b, ws') =>
+        let r := effectH pf op fuel false (aset c k (landed b cur)) ws'
+        ⟨r.cluster, r.ws, r.failed, cs ++ r.calls⟩
+      | _, _ => ⟨e.1, ws, e.2, cs⟩
+
+structure RunH where
+  cluster : Cluster
+  ws : Writers
+  calls : List Action
+  nfailed : Nat
+  deriving DecidableEq, Repr
+
+def runH (pf : PatchFn) : List Op → RunH → RunH
+  | [], o => o
+  | op :: rest, o =>
+    let e := effectH pf op retrySteps true o.cluster o.ws
+    runH pf rest ⟨e.cluster, e.ws, o.calls ++ e.calls, if e.failed then o.nfailed + 1 else o.nfailed⟩
+
+/-- The property for one patch file in a history with other writers. -/
+def expectedH (pf : PatchFn) (garbled : Bool) (ds : List Doc) (c : Cluster) (ws : Writers) :
+    Bool × Bool × Cluster × List Action :=
+  if garbled || ds.any (fun d => !d.valid) then (true, false, c, [])
+  else
+    let o := runH pf (ds.map (·.op)) ⟨c, ws, [], 0⟩
+    (o.nfailed != 0, true, o.cluster, o.calls)
+
+end Spec
+
 end ShellOp.Patch
